@@ -49,6 +49,7 @@ Proof. exact later_call_not_older. Qed.
 
 (* resubmitting an identical configuration causes no reload: the state (timer
    included) is unchanged, so every continuation behaves as without it *)
+(* (one step, by definition of [step]; the statement about all continuations is C19_identical_submit_invisible) *)
 Theorem C19_identical_submit_no_reload : forall s c,
   config s = Some c -> step s (Submit c) = Some s.
 Proof. exact identical_submit_no_reload. Qed.
@@ -71,7 +72,8 @@ Theorem C19_new_submit_arms_timer : forall s c s',
   step s (Submit c) = Some s' -> config s <> Some c -> timer s' = true.
 Proof. exact submit_arms. Qed.
 
-(* failed attempts are retried without a new submission *)
+(* failed attempts are retried without a new submission (one step, by definition of [step]: a failing call leaves
+   the timer armed; C19_retry_any_number is the statement over runs) *)
 Theorem C19_retry_without_submit : forall s s',
   step s (Fire false) = Some s' ->
   timer s' = true /\ config s' = config s /\ applied s' = applied s /\
@@ -84,9 +86,61 @@ Theorem C19_retry_any_number : forall s n, timer s = true ->
              length (log s') = length (log s) + n + 1.
 Proof. exact retry_n. Qed.
 
+(* ---- re-apply requests (frr.go validateReload sends {useOld: true}) ---- *)
+(* submissions and re-apply requests are always received (only a timer expiry can be "not enabled") *)
+Theorem C19_submit_total : forall s c, exists s', step s (Submit c) = Some s'.
+Proof. exact submit_total. Qed.
+
+Theorem C19_reapply_total : forall s, exists s', step s ReapplyOld = Some s'.
+Proof. exact reapply_total. Qed.
+
+(* a re-apply request arms the timer and changes nothing else; it is ignored only when nothing was ever submitted *)
+Theorem C19_reapply_arms_timer : forall s c, config s = Some c ->
+  exists s', step s ReapplyOld = Some s' /\ timer s' = true /\ config s' = Some c /\ applied s' = applied s /\ log s' = log s.
+Proof. exact reapply_arms. Qed.
+
+Theorem C19_reapply_ignored_when_empty : forall s, config s = None -> step s ReapplyOld = Some s.
+Proof. exact reapply_ignored_when_empty. Qed.
+
+(* with no newer submission it leads to exactly one more reload call, with the SAME content ... *)
+Theorem C19_reapply_reloads_same : forall evs s c, run init evs = Some s -> timer s = false -> config s = Some c ->
+  exists s', run s [ReapplyOld; Fire true] = Some s' /\ log s' = (Some c, true) :: log s /\
+             applied s' = Some c /\ timer s' = false /\ (forall b, step s' (Fire b) = None).
+Proof. intros evs s c H. apply reapply_reloads_same. exists evs; exact H. Qed.
+
+(* ... with a newer submission in the same window, to one reload call with the NEWER content *)
+Theorem C19_reapply_reloads_newer : forall evs s c c', run init evs = Some s -> timer s = false -> config s = Some c ->
+  exists s', run s [ReapplyOld; Submit c'; Fire true] = Some s' /\ log s' = (Some c', true) :: log s /\
+             applied s' = Some c' /\ timer s' = false.
+Proof. intros evs s c c' H. apply reapply_reloads_newer. exists evs; exact H. Qed.
+
+(* a failing re-applied reload is retried like any other *)
+Theorem C19_reapply_failure_retried : forall s c, timer s = false -> config s = Some c ->
+  exists s', run s [ReapplyOld; Fire false] = Some s' /\ timer s' = true /\ config s' = Some c.
+Proof. exact reapply_failure_retried. Qed.
+
+(* the run C19_coalesce assumes EXISTS: any window of submissions / re-apply requests is a run, the reload call is
+   enabled as soon as the timer is armed, and it is armed when it was before, when the stored configuration changed,
+   or when the window contains a re-apply request (something having been submitted) *)
+Theorem C19_window_run : forall s subs, no_fire subs = true ->
+  exists s1, run s subs = Some s1 /\ (timer s1 = true -> exists s', run s (subs ++ [Fire true]) = Some s').
+Proof. exact window_run. Qed.
+
+Theorem C19_window_armed_by_change : forall s subs s1,
+  no_fire subs = true -> run s subs = Some s1 -> config s1 <> config s -> timer s1 = true.
+Proof. exact window_armed_by_change. Qed.
+
+Theorem C19_window_armed_by_reapply : forall s subs s1,
+  no_fire subs = true -> run s subs = Some s1 -> In ReapplyOld subs -> config s <> None -> timer s1 = true.
+Proof. exact window_armed_by_reapply. Qed.
+
 (* eventually: from any reachable state, any continuation without further
    submission in which the reload succeeds once (or nothing was pending) ends
    with applied = most recently submitted *)
+(* NOTE on [applied]: it records "the reload action returned nil" (file written, reloader signalled).  A later
+   re-apply request (validateReload: the reloader reported that this very attempt failed) does not reset it; what
+   such a request does is arm the timer (C19_reapply_arms_timer), so the state is quiet again only after another
+   reload call (C19_reapply_reloads_same).  "Successfully applied" is relative to that notion. *)
 Theorem C19_eventually : forall evs s cont s',
   run init evs = Some s -> no_submit cont = true -> run s cont = Some s' ->
   (timer s = false \/ In (Fire true) cont) ->
@@ -181,7 +235,10 @@ Proof. exact rk_progress. Qed.
    and the manager's later state) is NOT expressible here; it is tied by the Go oracle
    deb-config-aliased of harness/internal/bgp/frr/zz_verif_debmgr_test.go.
    Under that reading: the debouncer's stored configuration is always the last one the manager handed
-   on, and when no timer is armed it is the applied one ... *)
+   on, and when no timer is armed it is the applied one.  The interleaving [mev] has manager operations, reload
+   attempts and re-apply requests.  [code] stands for the content reflect.DeepEqual compares: the statement is
+   meaningful for an INJECTIVE code only (a non-injective one makes the model drop submissions the code does
+   not); C19_frr_mgr_latest_applied_inj has the hypothesis ... *)
 Theorem C19_mgr_debounce_latest : forall (C : Type) (gen : list session -> list bfdprof -> string -> option C) xr (code : C -> N)
     l st evs last sigma,
   mevents gen xr code minit None l = (st, evs, last) -> run init evs = Some sigma ->
@@ -194,6 +251,14 @@ Theorem C19_frr_mgr_latest_applied : forall (code : frr * list bfdprof * string 
   mevents gen_frr true code minit None l = (st, evs, last) -> run init evs = Some sigma -> timer sigma = false ->
   last <> None -> cfg_of gen_frr st = Some c -> applied sigma = Some (code c).
 Proof. exact frr_mgr_latest_applied. Qed.
+
+Theorem C19_frr_mgr_latest_applied_inj : forall (code : frr * list bfdprof * string -> N) l st evs last sigma c,
+  (forall x y, code x = code y -> x = y) ->
+  hist_ok gen_frr true good_frr minit (ops_of l) ->
+  mevents gen_frr true code minit None l = (st, evs, last) -> run init evs = Some sigma -> timer sigma = false ->
+  last <> None -> cfg_of gen_frr st = Some c ->
+  applied sigma = Some (code c) /\ forall c', applied sigma = Some (code c') -> c' = c.
+Proof. exact frr_mgr_latest_applied_inj. Qed.
 
 (* validateReload asks for a re-apply exactly on a new time stamp with status "failure" (= 1) *)
 Theorem C19_validate_reload : forall fields prev,
